@@ -79,6 +79,7 @@ type Interp struct {
 	slowMs   int
 	labelPrefix string
 	skippedAsserts int
+	assertQueries  int
 	collected [][]*State
 	nMerged  int
 	stepCap  int
